@@ -54,9 +54,9 @@ interest / reward amounts)
   `C08.delId_binary_search`, `C08.delId_needs_ascending`, `C08.lend_listed_exactly`, `C08.borrow_listed_exactly`, `C08.no_dangling_ids`.
 * (depth 2) reserve book-keeping records vs the reserve module balance → `C08.reserve_ledger` (all histories without block-hook runs),
   `C08.reserve_halves_step`, `C08.reserve_halves_drift_counterexample`; the x/lend block hook breaks the ledger and kills itself:
-  `C08.reserve_ledger_poolsweep_counterexample`, `C08.beginBlock_dead_after_deletion`, `C08.beginBlock_keeps_pending` (finding D35).
+  `C08.reserve_ledger_poolsweep_counterexample`, `C08.beginBlock_dead_after_deletion`, `C08.beginBlock_keeps_pending` (finding D36).
 * (depth 2) the store migration 2 → 3 run in the middle of a history keeps all of the above → `C08.books_across_migration`,
-  `C08.reserve_ledger_across_migration`, `C08.migration_switches_off`; it leaks flags between records: `C08.migration_leak_counterexample` (finding D36).
+  `C08.reserve_ledger_across_migration`, `C08.migration_switches_off`; it leaks flags between records: `C08.migration_leak_counterexample` (finding D37).
 -/
 namespace Comdex.C08
 open Comdex Comdex.Lend
